@@ -18,6 +18,11 @@ Units3 == {NoUnit, "bar", "torr"}
 Calls == {[m |-> m, calc |-> c, unit |-> u] : m \in Methods, c \in BOOLEAN, u \in Units3}
 ValidCall(c) == c.unit = NoUnit \/ c.m \in PsatM
 
+\* branch of the saturation curve a method must read, and the branch its last flash leaves the state on
+NeedsBranch(m) == IF m \in {"gas_density", "gas_molar_density"} THEN "vapour"
+                  ELSE IF m \in {"enthalpy_liquefaction", "enthalpy_vaporisation"} THEN "both" ELSE "liquid"
+LeavesOn(m) == IF NeedsBranch(m) = "liquid" THEN "liquid" ELSE "vapour"
+
 Init == /\ ads \in [link : Links, user : BOOLEAN]
         /\ hid = "absent"
         /\ last = [kind |-> "new"]
@@ -29,10 +34,16 @@ Call(c, can) ==
    /\ ads' = ads
    \* adsorbate.py:218-225: the state object is created on first use of self.backend;
    \* p_triple goes through PropsSI and never touches it; creation fails for a bogus/absent name
-   /\ hid' = IF c.calc /\ ads.link = "valid" /\ c.m # "p_triple" THEN "created" ELSE hid
+   \* the state object remembers the last saturation flash: temperature and BRANCH (Q = 0 liquid, Q = 1 vapour)
+   /\ hid' = IF c.calc /\ ads.link = "valid" /\ c.m # "p_triple"
+             THEN (IF c.m \in TDep /\ can THEN LeavesOn(c.m) ELSE IF hid = "absent" THEN "created" ELSE hid)
+             ELSE hid
    /\ last' = [kind |-> "call", call |-> c, can |-> can,
                out |-> ImplOutcome(ads.link, can, ads.user, c.calc),
-               unit_applied |-> ImplUnitApplied(c.m, c.calc, c.unit)]
+               unit_applied |-> ImplUnitApplied(c.m, c.calc, c.unit),
+               \* adsorbate.py: every temperature-dependent method re-flashes on ITS branch before reading the
+               \* state, whatever the previous call left behind (hid is deliberately not consulted)
+               branch_read |-> IF c.m \in TDep THEN NeedsBranch(c.m) ELSE "na"]
 New == /\ ads' \in [link : Links, user : BOOLEAN] /\ hid' = "absent" /\ last' = [kind |-> "new"]
 Next == New \/ \E c \in Calls, can \in BOOLEAN : Call(c, can)
 Spec == Init /\ [][Next]_vars
@@ -40,6 +51,8 @@ Spec == Init /\ [][Next]_vars
 InvAllowed == last.kind = "call" => last.out \in SpecOutcomes(last.can, ads.user, last.call.calc)
 InvNoSilentBackend == last.kind = "call" /\ last.out = "backend" => last.can /\ last.call.calc
 InvUnitHonoured == last.kind = "call" /\ last.out = "backend" /\ last.call.unit # NoUnit => last.unit_applied
+\* the value read is from the branch the method is about, in every hidden state (liquid / vapour / none left behind)
+InvBranch == last.kind = "call" /\ last.call.m \in TDep => last.branch_read = NeedsBranch(last.call.m)
 \* for every state and every call: outcome is a function of (link, user, can, call) only
 InvHistoryFree == \A c \in Calls, can \in BOOLEAN :
                      (ValidCall(c) /\ (can => ads.link = "valid")) =>
